@@ -13,7 +13,7 @@ func init() {
 	register("C30", []string{"./internal/arenaskl"}, runC30)
 	register("C34", []string{"./internal/cache"}, runC34)
 	propExplain["C30"] = "Decides the publication-order clause of C30 in arenaskl.Skiplist.addInternal: the new node is fully built (newNode) and, at every level, its tower links are initialised before the CAS on the predecessor's next pointer can publish it; the back-pointer CAS of the successor happens only after that publishing CAS succeeded; outside initialisation the link words are modified only by compare-and-swap; the list height only by CAS (and Reset). (O2) a stale back pointer is repaired only where prev's forward pointer was re-read after next's back pointer and still names next (the helping CAS of addInternal). Does not decide the interleavings themselves (model checking)."
-	propExplain["C34"] = "Decides structural clauses of C34 in the block cache: a value's memory is freed only by Value.Release on the edge where the reference count dropped to zero (and by the owner-only Free); an entry's value is read-and-referenced (acquireValue) only with the shard mutex held (read or write) and replaced (setValue) only with it write-held, established by a lockset over the cache package with requires-held summaries; a read entry publishes its value/error before it wakes the waiters. (P1) the reference-counted read entry obtained on a miss is released or handed to the caller in the ReadHandle on every path of GetWithReadHandle. The outcome of a read is stored in the entry on every path of setReadValue / setReadError, not only when a waiter is already parked. Does not decide 'latest value for the exact key' or capacity accounting (value-level)."
+	propExplain["C34"] = "Decides structural clauses of C34 in the block cache: a value's memory is freed only by Value.Release on the edge where the reference count dropped to zero (and by the owner-only Free); an entry's value is read-and-referenced (acquireValue) only with the shard mutex held (read or write) and replaced (setValue) only with it write-held, established by a lockset over the cache package with requires-held summaries; a read entry publishes its value/error before it wakes the waiters. (P1) the reference-counted read entry obtained on a miss is released or handed to the caller in the ReadHandle on every path of GetWithReadHandle. The outcome of a read is stored in the entry on every path of setReadValue / setReadError, not only when a waiter is already parked. Does not decide 'latest value for the exact key' or capacity accounting (value-level). (P2) a waiter that received the read-turn token of a read entry leaves waitForReadPermissionOrHandle only after becoming the reader, finding the value present, or going back to waiting — never with the token consumed and nobody reading."
 	propTechnique["C30"] = "SSA ordering dataflow inside the CAS loop, who-may-write on atomic fields"
 	propTechnique["C34"] = "who-may-call, SSA guard, lockset with requires-held summaries over the cache package"
 }
@@ -156,6 +156,7 @@ func runC30(c *Ctx) {
 }
 
 func runC34(c *Ctx) {
+	runReadTurnToken(c, "C34.P2")
 	// W1
 	c.Who("C34.W1", FuncRef("cache.(*Value).free"), "Value.free only from Release / Free", "cache.(*Value).Release", "cache.Free")
 	if fn := c.Fn("C34.W1", "cache.(*Value).Release"); fn != nil {
@@ -309,4 +310,87 @@ func prefixKeys(m map[string]string) map[string]string {
 		out[shortKey(expandAlias(k))] = v
 	}
 	return out
+}
+
+// runReadTurnToken (added after seed C42-c; C34.P2, shared as C42.T1): the read turn of a cache
+// read entry is handed to ONE waiter as a token on the entry's channel. A waiter that received the
+// token (the `ok == true` edge of the receive arm of the select) may leave
+// waitForReadPermissionOrHandle only after it (a) found the value already present, (b) became the
+// reader (isReading = true), or (c) went back to waiting (the select again). Returning with the
+// token consumed and none of these strands every other waiter: nobody is reading and the channel
+// is empty.
+func runReadTurnToken(c *Ctx, rule string) {
+	fn := c.Fn(rule, "cache.(*readEntry).waitForReadPermissionOrHandle")
+	if fn == nil {
+		return
+	}
+	var sel *ssa.Select
+	chArm := -1
+	for _, b := range fn.Blocks {
+		for _, in := range b.Instrs {
+			if s, ok := in.(*ssa.Select); ok {
+				for i, st := range s.States {
+					if st.Dir == types.RecvOnly && pathHasSuffix(pathOf(st.Chan), "mu.ch") {
+						sel, chArm = s, i
+					}
+				}
+			}
+		}
+	}
+	if sel == nil {
+		c.Unresolved(rule, "no select receiving from the entry's channel in waitForReadPermissionOrHandle")
+		return
+	}
+	// recvOk of a blocking select is shared by all arms; it is read only on the channel's arm
+	tokenTaken := func(v ssa.Value) (bool, bool) {
+		ex, ok := v.(*ssa.Extract)
+		if !ok || ex.Tuple != ssa.Value(sel) || ex.Index != 1 {
+			return false, false
+		}
+		return true, false
+	}
+	_ = chArm
+	becomeReader := ViaHelper(Pred("isReading = true", func(in ssa.Instruction) bool {
+		st, ok := in.(*ssa.Store)
+		if !ok || !pathHasSuffix(pathOf(st.Addr), "mu.isReading") {
+			return false
+		}
+		k, isK := st.Val.(*ssa.Const)
+		return isK && k.Value != nil && k.Value.String() == "true"
+	}))
+	valuePresent := func(v ssa.Value) (bool, bool) {
+		bo, ok := v.(*ssa.BinOp)
+		if !ok {
+			return false, false
+		}
+		var x ssa.Value
+		switch {
+		case isNilConst(bo.Y):
+			x = bo.X
+		case isNilConst(bo.X):
+			x = bo.Y
+		default:
+			return false, false
+		}
+		if !pathHasSuffix(pathOf(x), "mu.v") {
+			return false, false
+		}
+		return true, bo.Op.String() == "==" // fact on the non-nil side
+	}
+	fl := NewFlow(c.P).
+		KillEdge("turn-token-accounted-for", tokenTaken).
+		After("turn-token-accounted-for", becomeReader).
+		After("turn-token-accounted-for", Pred("waiting again", func(in ssa.Instruction) bool { return in == ssa.Instruction(sel) })).
+		Edge("turn-token-accounted-for", valuePresent)
+	fl.MaxDepth = 0
+	entry := emptyState()
+	entry.add("turn-token-accounted-for")
+	res := fl.Analyze(fn, entry)
+	c.noteFlow(fl)
+	if n := c.Require(rule, res, AnyReturn, "a waiter that received the read-turn token leaves only after taking the turn, finding the value, or waiting again", []string{"turn-token-accounted-for"}); n == 0 {
+		c.Unresolved(rule, "no return in waitForReadPermissionOrHandle")
+	}
+	if len(instrs(fn, becomeReader)) == 0 {
+		c.Unresolved(rule, "the isReading = true store (becoming the reader) was not found")
+	}
 }
